@@ -391,8 +391,8 @@ class SimDevice(object):
         def f():
             try:
                 r = self.env.sense(self, kind, target)
-            except self.ns.UnsupportedTargetError:
-                raise                               # refused by the driver before the carrier is switched on
+            except (self.ns.UnsupportedTargetError, IOError):
+                raise                               # refused / host link failed before the carrier was switched on
             except BaseException:
                 self.field = True
                 raise
